@@ -385,6 +385,47 @@ impl Prop for C20 {
                     ctx.feat_if(alpha != 255, "truecolor.translucent-colour");
                     let got = emitted(&mut encoder, &mut buf, case.role, color)?;
                     let want = ColorSpec::Rgb((c >> 16) as u8, (c >> 8) as u8, *c as u8);
+                    // the same colour as one of three in a single face change (a parameter list of
+                    // fifty and more bytes): each of the three arrives unchanged
+                    if c % 5 == 0 {
+                        let other = |k: u32| RGBA::new((c >> (k + 3)) as u8 | 100, (c >> k) as u8 | 100, (*c as u8) | 100, 255);
+                        let trio = [color, other(1), other(7)];
+                        let cmd = TerminalCommand::FaceModify(FaceModify {
+                            fg: Some(trio[case.role as usize % 3]),
+                            bg: Some(trio[(case.role as usize + 1) % 3]),
+                            underline_color: Some(trio[(case.role as usize + 2) % 3]),
+                            bold: Some(true),
+                            italic: Some(true),
+                            ..FaceModify::default()
+                        });
+                        buf.clear();
+                        encoder.encode(&mut buf, cmd).map_err(|e| Fail::new("encode-error", format!("{e}")))?;
+                        let (ops, ground) = ctlseq::parse(&buf);
+                        let mut state = SgrState::default();
+                        let issues = ctlseq::apply_sgr_ops(&mut state, &ops);
+                        let spec = |c: RGBA| {
+                            let [r, g, b] = c.to_rgb();
+                            ColorSpec::Rgb(r, g, b)
+                        };
+                        ensure!(
+                            ground
+                                && issues.is_empty()
+                                && state.fg == spec(trio[case.role as usize % 3])
+                                && state.bg == spec(trio[(case.role as usize + 1) % 3])
+                                && state.underline_color == spec(trio[(case.role as usize + 2) % 3]),
+                            "truecolor:three-colours-in-one-change",
+                            "fg {} bg {} underline {} in one FaceModify emitted {:?}: fg {:?} bg {:?} underline {:?} issues {:?}",
+                            trio[case.role as usize % 3],
+                            trio[(case.role as usize + 1) % 3],
+                            trio[(case.role as usize + 2) % 3],
+                            String::from_utf8_lossy(&buf),
+                            state.fg,
+                            state.bg,
+                            state.underline_color,
+                            issues
+                        );
+                        ctx.feat("truecolor.three-colours-in-one-change");
+                    }
                     ensure!(
                         got == Some(want),
                         format!("truecolor:{role_name}:changed"),
